@@ -33,6 +33,26 @@ func NamedCaptures(regexString string) (map[string][]string, error) {
 	return extracts, nil
 }
 
+// HasEmptyWidthAssertion reports whether the regex contains an assertion (^ $ \A \z \b \B).
+// What such a regex matches depends on the bytes around the match, so it must be run on the
+// unmodified data: skipping to a literal prefix or cutting behind a literal suffix is not allowed.
+func HasEmptyWidthAssertion(regexString string) (bool, error) {
+	r, err := syntax.Parse(regexString, syntax.Perl)
+	if err != nil {
+		return false, err
+	}
+	stack := []*syntax.Regexp{r}
+	for len(stack) != 0 {
+		cur := stack[len(stack)-1]
+		stack = append(stack[:len(stack)-1], cur.Sub...)
+		switch cur.Op {
+		case syntax.OpBeginLine, syntax.OpEndLine, syntax.OpBeginText, syntax.OpEndText, syntax.OpWordBoundary, syntax.OpNoWordBoundary:
+			return true, nil
+		}
+	}
+	return false, nil
+}
+
 func ConstantSuffix(regexString string) ([]byte, error) {
 	r, err := syntax.Parse(regexString, syntax.Perl)
 	if err != nil {
